@@ -245,7 +245,7 @@ ADDED = {
     "C13": "Added later: -r over nested directories; files sharing an import that cannot be loaded; assertion kinds inside a module instantiated from a function body / a map callback; an opaque identity so that the static checker cannot see through the hidden kinds. One invocation with 0..3, 255, 256, 257, 512 failing inputs; the exit status judged as the property words it (non-zero). Sixth round: the log oracle also covers files whose build stops at run time after some assertions.",
     "C05": "Added later: Literals the printer must re-escape or re-scale (an infinite float, non-ASCII text next to every escape); comments after the last statement; the check refuses to start if a hand-written form does not parse. Several files in one invocation, a flat directory and -r over nested directories as further routes of `ucg fmt`. Commented files in three orders on the several-files / directory / -r routes. Sixth round: two statements x a comment before / after each on its line, at the top level and in a module body, with the fixed-point clause applied to the output (32 texts; one known finding).",
     "C01": "Added later: negative / i64::MIN / negative-float leaves; the S1 / S2 / S3-pair programs once more in non-strict mode. Five templates with backslashes. Callable values compared (168 programs). Sixth round: closures made by one factory in five ways x called in seven ways (35 programs).",
-    "C03": "Added later: the artifact file as third observation point (scalars in every position, the format-significant strings as value and key, short chains, mixed / multi-document lists through the real `ucg build` of `out <fmt> v;` into a directory holding a longer earlier artifact; the file is decoded). Values no data format can represent (a function, a module; top level and every container position) must be refused by json / yaml / yamlmulti / toml through converter, `convert` and `ucg build`. Strings ending in line breaks in every position of streams of two and three yamlmulti documents.",
+    "C03": "Added later: the artifact file as third observation point (scalars in every position, the format-significant strings as value and key, short chains, mixed / multi-document lists through the real `ucg build` of `out <fmt> v;` into a directory holding a longer earlier artifact; the file is decoded). Values no data format can represent (a function, a module; top level and every container position) must be refused by json / yaml / yamlmulti / toml through converter, `convert` and `ucg build`. Strings ending in line breaks in every position of streams of two and three yamlmulti documents. Sixth round: tuples that hold one field name two or three times (16 values), judged by the first field of a name.",
     "C04": "Added later: 35 flat constructs grown to 4 KiB (also through the real `ucg build` / `ucg fmt` with their default stack); C05's layout family (every canonical statement form with each separator incl. four comment placements at every gap). Token positions inside statements that define or mention a self-instantiating module are not mutated (excluded by the property). 8..128 function / module values compared with each other; seven constraints that mention themselves unguarded x 5 values.",
     "C06": "Added later: each literal value again where the checker has no static shape for it (opaque identity, element of a mixed list, field of a function argument); exemplars that do not mention the values' first field; five more spellings (alias of a named constraint, an alternation split over two named constraints either way, the value first passing another constrained binding under two constraints). A recursive-constraint family (6 declarations x 4 spellings x 14 values); NULL, empty list / tuple for every constraint; list constraints with the non-conforming element first / middle / last. Per constraint one conforming and one non-conforming value through the exit status of the real `ucg build` (alone, after and before a good file). A select result first passing a constrained binding; callable values; NULL alternatives.",
     "C07": "Added later: include / import forms with data and decoy files (differential only); a function grid (43 bodies x 13 arguments, also called at two types), a nested-call grid (same / different parameter names), a producer x consumer grid (13 indirect producers x 6 value types x 24 consumers), a select-arm grid (functions, tuples and lists that are alike but not the same), a callback-name grid; a non-strict pass (--no-strict on both sides) over the documented forms, the grids, S1 and S2. A function-result-use grid, a copy-override grid, a callee-name grid, raw forms over std/ imports next to a same-named directory. A field-selection grid (bare / quoted names, 1..3 fields, four kinds of base), a nested-module grid, closures that leave a function, nine reported forms. Inner closure parameter of the same name with another type; the copy as one arm of a select; five more reported forms. Sixth round: one library reached twice under every pair of 5 spellings and through files in two directories (64 + 27 files); every data-file form is built in an environment of its own.",
